@@ -67,6 +67,7 @@ type PbfBlock struct {
 	// damage (reader-detectable inconsistencies inside the block)
 	ShortStrings bool // string table cut to its first entry: every reference points outside it
 	ExtraColumn  bool // parallel columns of different length (way lat longer than refs, one role more than types)
+	ShortRawSize bool // zlib blob whose raw_size is the length of the block without its last group (a valid prefix)
 	PlainNodes   bool // a group of plain (non-dense) Node messages: valid PBF this decoder does not support
 }
 
@@ -299,6 +300,46 @@ func pbfPrimitiveBlock(b PbfBlock) []byte {
 	return data
 }
 
+// pbfPrefixLen: length of the block's encoding up to and including its last but one primitive group
+// (string table and groups are fields 1 and 2 and come first): cutting there leaves a valid block.
+func pbfPrefixLen(b PbfBlock) int {
+	full := &pb.PrimitiveBlock{}
+	if err := proto.Unmarshal(pbfPrimitiveBlock(b), full); err != nil {
+		panic(err)
+	}
+	if len(full.Primitivegroup) < 2 {
+		return -1
+	}
+	pre := &pb.PrimitiveBlock{Stringtable: full.Stringtable, Primitivegroup: full.Primitivegroup[:len(full.Primitivegroup)-1]}
+	d, err := proto.Marshal(pre)
+	if err != nil {
+		panic(err)
+	}
+	return len(d)
+}
+
+func pbfFileBlockSized(typ string, raw []byte, declared int) []byte {
+	blob := &pb.Blob{}
+	var zb bytes.Buffer
+	zw := zlib.NewWriter(&zb)
+	zw.Write(raw)
+	zw.Close()
+	blob.ZlibData = zb.Bytes()
+	blob.RawSize = proto.Int32(int32(declared))
+	bd, err := proto.Marshal(blob)
+	if err != nil {
+		panic(err)
+	}
+	hd, err := proto.Marshal(&pb.BlobHeader{Type: proto.String(typ), Datasize: proto.Int32(int32(len(bd)))})
+	if err != nil {
+		panic(err)
+	}
+	out := make([]byte, 4)
+	binary.BigEndian.PutUint32(out, uint32(len(hd)))
+	out = append(out, hd...)
+	return append(out, bd...)
+}
+
 func pbfFileBlock(typ string, raw []byte, useZlib bool) []byte {
 	blob := &pb.Blob{}
 	if useZlib {
@@ -332,7 +373,7 @@ func pbfNormalize(f *PbfFile) {
 	}
 	for bi := range f.Blocks {
 		b := &f.Blocks[bi]
-		b.ShortStrings, b.ExtraColumn, b.PlainNodes = false, false, false
+		b.ShortStrings, b.ExtraColumn, b.PlainNodes, b.ShortRawSize = false, false, false, false
 		b.Gran, b.DateGran = pbfAbs(b.Gran)*50, pbfAbs(b.DateGran)*500
 		// ids ascending and distinct per block so that every object is identifiable
 		for i := range b.Nodes {
@@ -363,7 +404,11 @@ func pbfBuild(f PbfFile) (data []byte, starts []int, objs [][]osm.Object) {
 	data = append(data, pbfFileBlock("OSMHeader", hraw, false)...)
 	for _, b := range f.Blocks {
 		starts = append(starts, len(data))
-		data = append(data, pbfFileBlock("OSMData", pbfPrimitiveBlock(b), b.Zlib)...)
+		if b.ShortRawSize {
+			data = append(data, pbfFileBlockSized("OSMData", pbfPrimitiveBlock(b), pbfPrefixLen(b))...)
+		} else {
+			data = append(data, pbfFileBlock("OSMData", pbfPrimitiveBlock(b), b.Zlib)...)
+		}
 		objs = append(objs, pbfBlockObjects(b))
 	}
 	starts = append(starts, len(data))
